@@ -17,7 +17,7 @@ pub fn spec() -> Spec {
         rule: "layer 'step': from FreeWord::new/from of EVERY raw letter sequence of length <= 4 over {0,+-1,+-2,+-3}, every single action of the full menu (product in 7 operand forms incl. in-place with every reduced word of length <= 3, inverse, powers -3..3, commutator with words <= 2, rotations -2..len+1); layer 'hist' (stateright BFS): all histories of mixed operations from the empty word to a depth, state = observed letter vector; layer 'axioms': group axioms on all triples of words <= 2, order axioms on all triples of words <= 3 over 2 generators, <= 2 over 3 generators and some with generator indices up to 12; layer 'relators': representative/permutation set of every word <= L. Oracle = naive free reduction to a fixpoint on Vec<isize>. Non-trivial = some cancellation happens in the operation.",
         assumptions: &[],
         bounds: |t| json!({"step_raw_len": 4, "step_operand_len": 3, "hist_depth": t.pick(5, 6), "axiom_triples_len": 2, "order_triples_len": 3,
-            "relator_len_2gens": t.pick(6, 8), "relator_len_3gens": t.pick(4, 5)}),
+            "relator_len_2gens": t.pick(10, 14), "relator_len_3gens": t.pick(8, 10), "relator_len_4gens": t.pick(6, 8)}),
     }
 }
 
@@ -106,6 +106,29 @@ fn reduced_words(gens: usize, maxlen: usize) -> Vec<Vec<isize>> {
         alphabet.push(-g);
     }
     sequences(&alphabet, maxlen).into_iter().filter(|w| is_reduced(w)).collect()
+}
+
+/// streams every freely reduced word over `gens` generators of length 1..=maxlen that uses the LAST
+/// generator when `need_last` (so that families over 2, 3, 4 generators do not repeat each other)
+fn for_each_reduced_word(gens: usize, maxlen: usize, need_last: bool, f: &mut dyn FnMut(&[isize])) {
+    fn rec(gens: isize, maxlen: usize, need_last: bool, w: &mut Vec<isize>, f: &mut dyn FnMut(&[isize])) {
+        if !w.is_empty() && (!need_last || w.iter().any(|x| x.abs() == gens)) {
+            f(w);
+        }
+        if w.len() == maxlen {
+            return;
+        }
+        for g in 1..=gens {
+            for x in [g, -g] {
+                if w.last() != Some(&-x) {
+                    w.push(x);
+                    rec(gens, maxlen, need_last, w, f);
+                    w.pop();
+                }
+            }
+        }
+    }
+    rec(gens as isize, maxlen, need_last, &mut vec![], f);
 }
 
 // --- layer 'step' -----------------------------------------------------------------------
@@ -570,8 +593,10 @@ fn axioms_layer(ctx: &mut Ctx) {
 
 fn relator_case(ctx: &mut Ctx, w: &[isize]) {
     let case = json!({"layer": "relators", "w": w});
-    ctx.announce(&case);
     let n = w.len();
+    if n <= 6 {
+        ctx.announce(&case);
+    }
     let cyc = n == 0 || w[0] != -w[n - 1];
     ctx.count(n >= 2);
     let weight = n as u64;
@@ -597,7 +622,9 @@ fn relator_case(ctx: &mut Ctx, w: &[isize]) {
             why = Some(format!("relator_permutations = {:?}, expected {:?}", perms, exp_set));
         } else if rep != min {
             why = Some(format!("relator_representative = {:?}, least rotation/inverse is {:?}", letters(&rep), letters(&min)));
-        } else if cyc {
+        } else if cyc && n <= 8 {
+            // (for longer words every rotation and inverse is itself a case of this exhaustive family, and
+            // agreement follows from 'representative = least element' holding for each of them)
             for x in &all {
                 let rx = relator_representative(&fw(x));
                 if rx != rep {
@@ -635,15 +662,16 @@ fn run(ctx: &mut Ctx) {
         }
     }
     axioms_layer(ctx);
-    for w in reduced_words(2, tier.pick(6, 8)) {
-        if ctx.take() {
-            relator_case(ctx, &w);
-        }
+    if ctx.take() {
+        relator_case(ctx, &[]);
     }
-    for w in reduced_words(3, tier.pick(4, 5)) {
-        if w.iter().any(|x| x.abs() == 3) && ctx.take() {
-            relator_case(ctx, &w);
-        }
+    for (gens, maxlen) in [(2usize, tier.pick(10, 14)), (3, tier.pick(8, 10)), (4, tier.pick(6, 8))] {
+        // the generator walks all words in every worker; a worker runs its share
+        for_each_reduced_word(gens, maxlen, gens > 2, &mut |w| {
+            if ctx.take() {
+                relator_case(ctx, w);
+            }
+        });
     }
     if ctx.shard == 0 {
         hist_layer(ctx, tier.pick(5, 6));
